@@ -19,9 +19,9 @@ import (
 
 type opdef struct {
 	name    string
-	methods []string                       // public methods this operation covers
-	mut     bool                           // writes into the matrix under test
-	applies func(e *env) bool              // nil = always
+	methods []string                           // public methods this operation covers
+	mut     bool                               // writes into the matrix under test
+	applies func(e *env) bool                  // nil = always
 	run     func(e *env, m Matrix) interface{} // executed on the view and on the copy
 }
 
@@ -478,7 +478,7 @@ func allOps() []opdef {
 	return ops
 }
 
-var opsTable = allOps()
+var opsTable = append(allOps(), concreteOps()...)
 
 var emptyOps = map[string]bool{"String": true, "Table": true, "MarshalJSON": true, "JSONRoundTrip": true, "Export": true,
 	"Clone": true, "ConstIteratorRaw": true, "Reduce": true, "Reset": true, "SetIdentity": true, "Map": true,
@@ -542,6 +542,10 @@ func (e *env) differential() {
 			e.stats["skipped_copy_panics"]++
 			e.opcount["copy_panics:"+o.name]++
 			dirty = true
+			continue
+		}
+		if s, ok := oc.Obs.(string); ok && s == na {
+			e.opcount["not_available:"+o.name]++ // the element type has no such concrete method
 			continue
 		}
 		ov := runOp(e, o, V)
